@@ -71,6 +71,18 @@ func workDir() string {
 	return w
 }
 
+// diagPath names a diagnostics file of the orchestrator. ./vcheck gives every invocation its own scratch directory and
+// removes it on exit, so the lists meant to be read after the run (all_violations, guard_oom_cases) live in the
+// check's base directory /verif/.work/c28; a run with a patched tree (./vmutate) writes <name>.mutant.<ext>.
+func diagPath(name, ext string) string {
+	d := filepath.Join(ev.Root, ".work", "c28")
+	os.MkdirAll(d, 0o755)
+	if os.Getenv("VERIF_MUTANT") != "" {
+		name += ".mutant"
+	}
+	return filepath.Join(d, name+ext)
+}
+
 func progPath(fam string, shard int, tag string) string {
 	return filepath.Join(workDir(), fmt.Sprintf("prog_%s_%d%s", fam, shard, tag))
 }
@@ -633,9 +645,9 @@ func crashStack(out string) string {
 	return ""
 }
 
-// noteGuardOOM appends a not-judged out-of-memory case to $VERIF_WORK/guard_oom_cases.jsonl (diagnostics only).
+// noteGuardOOM appends a not-judged out-of-memory case to /verif/.work/c28/guard_oom_cases.jsonl (diagnostics only).
 func noteGuardOOM(fam string, at int, size int64, where string, c any) {
-	f, err := os.OpenFile(filepath.Join(workDir(), "guard_oom_cases.jsonl"), os.O_CREATE|os.O_WRONLY|os.O_APPEND, 0o644)
+	f, err := os.OpenFile(diagPath("guard_oom_cases", ".jsonl"), os.O_CREATE|os.O_WRONLY|os.O_APPEND, 0o644)
 	if err != nil {
 		return
 	}
